@@ -227,13 +227,10 @@ func Verif_C05_prefetch() {
 	}
 	vs.Assert("the detection read was bounded by a deadline that is cleared afterwards",
 		len(a.deadlines) == 2 && !a.deadlines[0].IsZero() && a.deadlines[1].IsZero())
-	go func() {
-		a.in <- a2
-		close(a.in)
-	}()
-	go func() { close(upstream.in) }()
-	var err error
-	go func() { err = RelayTCPContextWithRecords(context.Background(), wrappedA, upstream, nil, nil) }()
+	a.in <- a2
+	close(a.in)
+	close(upstream.in)
+	err := RelayTCPContextWithRecords(context.Background(), wrappedA, upstream, nil, nil)
 	vs.Join()
 	want := append(append([]byte{}, a1...), a2...)
 	vs.Assert("relay ends cleanly", err == nil)
